@@ -249,3 +249,156 @@ pub proof fn lemma_exp_budget_fail(e0: nat, kk: nat)
     let p = vstd::arithmetic::power2::pow2((kk + 1) as nat) as int;
     if (e0 as int) < p { vstd::arithmetic::div_mod::lemma_basic_div(e0 as int, p); }
 }
+
+// ---- C04: the standard signature covenants (lib/melvm/src/lib.rs std_ed25519_pk_legacy / std_ed25519_pk_new)
+pub open spec fn is_push_int(op: OpCode, n: nat) -> bool { match op { OpCode::PushI(x) => x@ == n, _ => false } }
+pub open spec fn is_push_bytes(op: OpCode, b: Seq<u8>) -> bool { match op { OpCode::PushB(v) => v@ == b, _ => false } }
+/// the eight instructions of a standard signature covenant; `first` is PushI(0) (legacy: always the first signature) or LoadImm(9) (new: the
+/// signature at the spender's own input position)
+pub open spec fn is_std_sig(ops: Seq<OpCode>, pk: Seq<u8>, legacy: bool) -> bool {
+    &&& ops.len() == 8 && (if legacy { is_push_int(ops[0], 0) } else { ops[0] == OpCode::LoadImm(9) })
+    &&& is_push_int(ops[1], 6) && ops[2] == OpCode::LoadImm(0) && ops[3] == OpCode::VRef && ops[4] == OpCode::VRef
+    &&& is_push_bytes(ops[5], pk) && ops[6] == OpCode::LoadImm(1) && ops[7] == OpCode::SigEOk(32)
+}
+pub open spec fn truthy_res(res: Option<Value>) -> bool { res is Some && truthy(res->Some_0) }
+/// which signature slot a standard covenant reads
+pub open spec fn std_slot(legacy: bool, env: Option<CovenantEnv>) -> Option<nat> { if legacy { Some(0nat) } else { match env { Some(e) => Some(e.spender_index as nat), None => None::<nat> } } }
+pub open spec fn std_m0(tx: Transaction, env: Option<CovenantEnv>) -> VM { VM { stack: Seq::<Value>::empty(), heap: env_heap(tx, env), pc: 0, loops: Seq::<LoopState>::empty() } }
+pub open spec fn std_sigs(tx: Transaction) -> Seq<Value> { Seq::new(tx.sigs@.len(), |j: int| vbytes(tx.sigs@[j]@)) }
+pub open spec fn std_out(pk: Seq<u8>, tx: Transaction, i: nat) -> Value { let sg = tx.sigs@[i as int]@; if sg.len() > 64 { vint(0) } else { vint(b2n(sig_ok(pk_of(pk), spec_txhash(tx).0.0@, sg))) } }
+pub proof fn lemma_run_n_step(ops: Seq<OpCode>, m0: VM, k: nat, mk: VM)
+    requires run_n(ops, m0, k) == Some(mk), 0 <= mk.pc < ops.len()
+    ensures run_n(ops, m0, k + 1) == sem_step(ops[mk.pc], mk)
+{ reveal_with_fuel(run_n, 2); assert(covered(ops[mk.pc])); }
+/// instructions 0..4: load the slot index, the transaction's signature vector and the signature in that slot
+pub proof fn lemma_std_prefix(ops: Seq<OpCode>, pk: Seq<u8>, legacy: bool, tx: Transaction, env: Option<CovenantEnv>)
+    requires is_std_sig(ops, pk, legacy)
+    ensures match std_slot(legacy, env) {
+        None => run_n(ops, std_m0(tx, env), 1) is None,
+        Some(i) => (forall|k: nat| k <= 4 ==> (#[trigger] run_n(ops, std_m0(tx, env), k)) is Some && run_n(ops, std_m0(tx, env), k)->Some_0.pc == k)
+                   && (if i >= tx.sigs@.len() { run_n(ops, std_m0(tx, env), 5) is None } else { run_n(ops, std_m0(tx, env), 5) == Some(VM { stack: seq![vbytes(tx.sigs@[i as int]@)], pc: 5, ..std_m0(tx, env) }) }) },
+            run_n(ops, std_m0(tx, env), 0) == Some(std_m0(tx, env))
+{
+    broadcast use axiom_u256_of, axiom_catvec_of, axiom_u256_range, axiom_u256_ext;
+    vstd::arithmetic::power2::lemma2_to64(); vstd::arithmetic::power2::lemma_pow2_adds(64, 64); vstd::arithmetic::power2::lemma_pow2_adds(128, 128);
+    let m0 = std_m0(tx, env); let heap = env_heap(tx, env);
+    assert(run_n(ops, m0, 0) == Some(m0)) by { reveal_with_fuel(run_n, 1); }
+    assert(heap.contains_key(0u16) && heap[0u16] == val_of_tx(tx));
+    let slot = std_slot(legacy, env);
+    if slot is None {
+        assert(!heap.contains_key(9u16));
+        assert(sem_step(ops[0], m0) is None);
+        lemma_run_n_step(ops, m0, 0, m0);
+    } else {
+        let i = slot->Some_0;
+        let m1 = VM { stack: seq![vint(i)], pc: 1, ..m0 };
+        assert(sem_step(ops[0], m0) == Some(m1)) by { if legacy { let x = ops[0]->PushI_0; assert(Value::Int(x) == vint(0)); assert(m0.stack.push(Value::Int(x)) =~= m1.stack); }
+            else { assert(heap.contains_key(9u16) && heap[9u16] == vint(i)); assert(m0.stack.push(heap[9u16]) =~= m1.stack); } }
+        lemma_run_n_step(ops, m0, 0, m0);
+        let m2 = VM { stack: seq![vint(i), vint(6)], pc: 2, ..m0 };
+        assert(sem_step(ops[1], m1) == Some(m2)) by { let x = ops[1]->PushI_0; assert(Value::Int(x) == vint(6)); assert(m1.stack.push(Value::Int(x)) =~= m2.stack); }
+        lemma_run_n_step(ops, m0, 1, m1);
+        let m3 = VM { stack: seq![vint(i), vint(6), val_of_tx(tx)], pc: 3, ..m0 };
+        assert(sem_step(ops[2], m2) == Some(m3)) by { assert(m2.stack.push(heap[0u16]) =~= m3.stack); }
+        lemma_run_n_step(ops, m0, 2, m2);
+        let sigsv = val_vec(tx.sigs@, |b: Bytes| vbytes(b@));
+        let m4 = VM { stack: seq![vint(i), sigsv], pc: 4, ..m0 };
+        assert(sem_step(ops[3], m3) == Some(m4)) by {
+            let fields = seq![vint((tx.kind as u8) as nat), val_vec(tx.inputs@, |c: CoinID| val_of_coinid(c)), val_vec(tx.outputs@, |c: CoinData| val_of_coindata(c)), vint(tx.fee.0 as nat),
+                              val_vec(tx.covenants@, |b: Bytes| vbytes(b@)), vbytes(tx.data@), sigsv];
+            assert(val_of_tx(tx) == vvec(fields));
+            assert(as_vec(val_of_tx(tx)) == Some(fields)); assert(as_u16(vint(6)) == Some(6nat)); assert(fields[6] == sigsv);
+            assert(top(m3.stack, 0) == val_of_tx(tx) && top(m3.stack, 1) == vint(6));
+            assert(m3.stack.take(1).push(sigsv) =~= m4.stack);
+        }
+        lemma_run_n_step(ops, m0, 3, m3);
+        let sigs = Seq::new(tx.sigs@.len(), |j: int| vbytes(tx.sigs@[j]@));
+        assert(as_vec(sigsv) == Some(sigs));
+        if legacy { assert(i == 0); } else { assert(env is Some); assert(i == env->Some_0.spender_index as nat); }
+        vstd::arithmetic::power2::lemma_pow2_strictly_increases(8, 256); assert(vstd::arithmetic::power2::pow2(8) == 256);
+        assert(i < 256 && i < m256());
+        assert(u256_of(i)@ == i);
+        assert(as_u16(vint(i)) == Some(i));
+        assert(top(m4.stack, 0) == sigsv && top(m4.stack, 1) == vint(i));
+        lemma_run_n_step(ops, m0, 4, m4);
+        if i >= tx.sigs@.len() { assert(sem_step(ops[4], m4) is None); }
+        else { let sg = tx.sigs@[i as int]@; let m5 = VM { stack: seq![vbytes(sg)], pc: 5, ..m0 };
+            assert(sem_step(ops[4], m4) == Some(m5)) by { assert(sigs[i as int] == vbytes(sg)); assert(m4.stack.take(0).push(vbytes(sg)) =~= m5.stack); } }
+        assert forall|k: nat| k <= 4 implies (#[trigger] run_n(ops, m0, k)) is Some && run_n(ops, m0, k)->Some_0.pc == k by {
+            if k == 0 { } else if k == 1 { assert(run_n(ops, m0, 1) == Some(m1)); } else if k == 2 { assert(run_n(ops, m0, 2) == Some(m2)); } else if k == 3 { assert(run_n(ops, m0, 3) == Some(m3)); } else { assert(run_n(ops, m0, 4) == Some(m4)); } }
+    }
+}
+/// instructions 5..7: push the key and the signature-free hash, check the signature; then the program has ended
+pub proof fn lemma_std_suffix(ops: Seq<OpCode>, pk: Seq<u8>, legacy: bool, tx: Transaction, env: Option<CovenantEnv>, i: nat)
+    requires is_std_sig(ops, pk, legacy), pk.len() == 32, i < tx.sigs@.len(), run_n(ops, std_m0(tx, env), 5) == Some(VM { stack: seq![vbytes(tx.sigs@[i as int]@)], pc: 5, ..std_m0(tx, env) })
+    ensures run_n(ops, std_m0(tx, env), 8) == Some(VM { stack: seq![std_out(pk, tx, i)], pc: 8, ..std_m0(tx, env) }), run_n(ops, std_m0(tx, env), 9) is None
+{
+    broadcast use axiom_u256_of, axiom_catvec_of, axiom_u256_range;
+    let m0 = std_m0(tx, env); let heap = env_heap(tx, env); let sg = tx.sigs@[i as int]@; let th = spec_txhash(tx).0.0@;
+    assert(heap.contains_key(1u16) && heap[1u16] == vbytes(th));
+    let m5 = VM { stack: seq![vbytes(sg)], pc: 5, ..m0 };
+    let m6 = VM { stack: seq![vbytes(sg), vbytes(pk)], pc: 6, ..m0 };
+    assert(sem_step(ops[5], m5) == Some(m6)) by { assert(m5.stack.push(vbytes(pk)) =~= m6.stack); }
+    lemma_run_n_step(ops, m0, 5, m5);
+    let m7 = VM { stack: seq![vbytes(sg), vbytes(pk), vbytes(th)], pc: 7, ..m0 };
+    assert(sem_step(ops[6], m6) == Some(m7)) by { assert(m6.stack.push(heap[1u16]) =~= m7.stack); }
+    lemma_run_n_step(ops, m0, 6, m6);
+    assert(th.len() == 32);
+    let out = std_out(pk, tx, i);
+    let m8 = VM { stack: seq![out], pc: 8, ..m0 };
+    assert(sem_step(ops[7], m7) == Some(m8)) by {
+        assert(top(m7.stack, 0) == vbytes(th) && top(m7.stack, 1) == vbytes(pk) && top(m7.stack, 2) == vbytes(sg));
+        assert(as_bytes(vbytes(pk)) == Some(pk) && as_bytes(vbytes(th)) == Some(th) && as_bytes(vbytes(sg)) == Some(sg));
+        assert(sem_tri(OpCode::SigEOk(32), vbytes(th), vbytes(pk), vbytes(sg)) == Some(out));
+        assert(m7.stack.take(0).push(out) =~= m8.stack);
+    }
+    lemma_run_n_step(ops, m0, 7, m7);
+    assert(run_n(ops, m0, 9) is None) by { reveal_with_fuel(run_n, 2); }
+}
+/// a run of n steps exists only if every shorter run exists
+pub proof fn lemma_run_n_prefix(ops: Seq<OpCode>, m0: VM, k: nat, n: nat)
+    requires run_n(ops, m0, n) is Some, k <= n ensures run_n(ops, m0, k) is Some decreases n
+{ reveal_with_fuel(run_n, 2); if n > k { lemma_run_n_prefix(ops, m0, k, (n - 1) as nat); } }
+//@LEMMA C04 lemma_std_sig_covenant a standard signature covenant evaluates to a true value exactly when the transaction carries, in the expected signature slot, a valid Ed25519 signature by the named key over the signature-free transaction hash
+pub proof fn lemma_std_sig_covenant(ops: Seq<OpCode>, pk: Seq<u8>, legacy: bool, tx: Transaction, env: Option<CovenantEnv>, res: Option<Value>)
+    requires is_std_sig(ops, pk, legacy), pk.len() == 32, run_result(ops, std_m0(tx, env), res)
+    ensures truthy_res(res) <==> (match std_slot(legacy, env) { Some(i) => i < tx.sigs@.len() && tx.sigs@[i as int]@.len() <= 64 && sig_ok(pk_of(pk), spec_txhash(tx).0.0@, tx.sigs@[i as int]@), None => false })
+{
+    broadcast use axiom_u256_of, axiom_u256_range;
+    vstd::arithmetic::power2::lemma2_to64(); vstd::arithmetic::power2::lemma_pow2_adds(64, 64); vstd::arithmetic::power2::lemma_pow2_adds(128, 128);
+    let m0 = std_m0(tx, env);
+    let n = choose|n: nat| match #[trigger] run_n(ops, m0, n) {
+        Some(m) => (m.pc >= ops.len() && res == (if m.stack.len() > 0 { Some(m.stack[m.stack.len() - 1]) } else { None::<Value> }))
+                   || (0 <= m.pc < ops.len() && !covered(ops[m.pc]))
+                   || (0 <= m.pc < ops.len() && covered(ops[m.pc]) && sem_step(ops[m.pc], m) is None && res is None),
+        None => false };
+    let mn = run_n(ops, m0, n)->Some_0;
+    lemma_std_prefix(ops, pk, legacy, tx, env);
+    // in every case: either the run stops with a failing step (res is None) or it reaches pc 8 after exactly 8 steps
+    let slot = std_slot(legacy, env);
+    if slot is None {
+        if n >= 1 { lemma_run_n_none(ops, m0, 1, n); }
+        assert(n == 0); assert(mn == m0) by { reveal_with_fuel(run_n, 1); }
+        assert(res is None);
+    } else {
+        let i = slot->Some_0;
+        if i >= tx.sigs@.len() {
+            if n >= 5 { lemma_run_n_none(ops, m0, 5, n); }
+            assert(n <= 4 && mn.pc == n);
+            assert(res is None);
+        } else {
+            lemma_std_suffix(ops, pk, legacy, tx, env, i);
+            if n >= 9 { lemma_run_n_none(ops, m0, 9, n); }
+            let m8 = VM { stack: seq![std_out(pk, tx, i)], pc: 8, ..m0 };
+            if n < 8 { lemma_run_n_prefix(ops, m0, (n + 1) as nat, 8); lemma_run_n_step(ops, m0, n, mn); assert(false); }
+            assert(n == 8 && mn == m8);
+            assert(res == Some(std_out(pk, tx, i)));
+            let sg = tx.sigs@[i as int]@;
+            assert(truthy(std_out(pk, tx, i)) <==> (sg.len() <= 64 && sig_ok(pk_of(pk), spec_txhash(tx).0.0@, sg)));
+        }
+    }
+}
+/// once a run has stopped it stays stopped
+pub proof fn lemma_run_n_none(ops: Seq<OpCode>, m0: VM, k: nat, n: nat)
+    requires run_n(ops, m0, k) is None, k <= n ensures run_n(ops, m0, n) is None decreases n
+{ reveal_with_fuel(run_n, 2); if n > k { lemma_run_n_none(ops, m0, k, (n - 1) as nat); } }
